@@ -162,6 +162,19 @@ def install():
     def _map(ex, f, it):
         return [ex.call(f, [x]) for x in ex.iterate(it)]
 
+    @_B('functools.reduce')
+    def _reduce(ex, f, it, *init):
+        xs = list(ex.iterate(it))
+        if init:
+            acc = init[0]
+        elif xs:
+            acc, xs = xs[0], xs[1:]
+        else:
+            raise PyRaise('TypeError', 'reduce() of empty iterable with no initial value')
+        for x in xs:
+            acc = ex.call(f, [acc, x])
+        return acc
+
     @_B('any')
     def _any(ex, it):
         for x in ex.iterate(it):
